@@ -55,7 +55,8 @@ pub const OW_ROOT_SET: usize = 13;
 pub const OW_BUILDER: usize = 14;
 pub const OW_CONVERT: usize = 15;
 pub const OW_ZST: usize = 16;
-pub const OW_N: usize = 17;
+pub const OW_HANDLE_IN: usize = 17;
+pub const OW_N: usize = 18;
 
 /// What kind of object to allocate next: a fixed kind, or a parameterised family drawn per use.
 #[derive(Clone, Copy, Debug, PartialEq, Eq, serde::Serialize, serde::Deserialize)]
@@ -103,6 +104,8 @@ pub struct GenCfg {
     pub bare_bias: u32,
     /// chance out of 16 that a new arena has a pointer-free root type
     pub static_bias: u32,
+    /// chance out of 64, per event, that the event is a `rootless_mutate` call
+    pub rootless_bias: u32,
 }
 
 pub struct Gen {
@@ -170,6 +173,11 @@ impl Gen {
                 return self.new_arena_event(w, n_slots as Aid);
             }
             return Event::ArmTraceFault { at: u64::MAX, repeat: 0 };
+        }
+        if self.cfg.rootless_bias > 0 && n_slots < 8 && self.rng.below(64) < self.cfg.rootless_bias as usize {
+            self.begin_cb();
+            self.budget = 1 + self.rng.below(self.cfg.ops_hi + 2);
+            return Event::Rootless { a: n_slots as Aid, root_set: w.sh.next_id, ops: vec![] };
         }
         let mut we = self.cfg.w_event;
         if w.handles.is_empty() {
@@ -514,12 +522,14 @@ impl Gen {
         }
         if v.handles.is_empty() {
             wo[OW_PROBE] = 0;
+            wo[OW_HANDLE_IN] = 0;
         }
         if v.handles.len() >= self.cfg.max_handles {
             wo[OW_STASH] = 0;
         }
         if v.constructing {
             wo[OW_PROBE] = 0;
+            wo[OW_HANDLE_IN] = 0;
             wo[OW_UPGRADE] = 0;
             wo[OW_IS_DROPPED] = 0;
         }
@@ -598,11 +608,25 @@ impl Gen {
                     if self.rng.chance(1, 2) && !full {
                         let id = v.sh.next_id;
                         let k = self.fresh_kind();
-                        self.queue.push_back(Op::LinkWeak { holder, slot: slot as u8, child: id, route });
+                        let conv = if self.rng.below(16) < self.cfg.conv_bias as usize {
+                            match k {
+                                Kind::Node => [Conv::Erase, Conv::Unsize, Conv::Raw, Conv::Kind][self.rng.below(if crate::payload::node_tag_of(id) != 0 { 4 } else { 3 })],
+                                Kind::Field => Conv::Raw,
+                                Kind::Slice { .. } | Kind::Swh { .. } => Conv::Thin,
+                                _ => Conv::None,
+                            }
+                        } else {
+                            Conv::None
+                        };
+                        self.queue.push_back(Op::LinkWeak { holder, slot: slot as u8, child: id, route, conv });
                         return Some(Op::Alloc { id, kind: k });
                     }
                     let Some(child) = self.pick_child(v) else { continue };
-                    return Some(Op::LinkWeak { holder, slot: slot as u8, child, route });
+                    let conv = match self.conv_for(v, child) {
+                        Conv::Weak => Conv::None,
+                        c => c,
+                    };
+                    return Some(Op::LinkWeak { holder, slot: slot as u8, child, route, conv });
                 }
                 OW_WEAK_UNLINK => {
                     let Some((holder, kind, slot)) = self.pick_weak_holder(v, true) else { continue };
@@ -646,6 +670,16 @@ impl Gen {
                     let holders: Vec<Id> = v.acc.iter().filter(|i| v.sh.objs.get(i).is_some_and(|o| o.kind == Kind::SetHolder)).copied().collect();
                     let set = if !holders.is_empty() && self.rng.chance(1, 2) { SetRef::Holder(holders[self.rng.below(holders.len())]) } else { SetRef::Root };
                     return Some(Op::Probe { handle: h, set });
+                }
+                OW_HANDLE_IN => {
+                    // a handle cloned or dropped by client code *inside* a callback
+                    let own: Vec<Hid> = v.handles.iter().filter(|x| x.1 == v.a || !v.sh.arena_alive(x.1)).map(|x| x.0).collect();
+                    if own.is_empty() {
+                        continue;
+                    }
+                    let h = own[self.rng.below(own.len())];
+                    let op = if v.handles.len() < self.cfg.max_handles && self.rng.chance(1, 2) { HandleOp::Clone { new: v.sh.next_hid } } else { HandleOp::Drop };
+                    return Some(Op::HandleIn { h, op });
                 }
                 OW_BARRIER => {
                     if let Some(op) = self.gen_barrier_only(v) {
